@@ -1,10 +1,9 @@
 SPECIFICATION GSpec
 CONSTANTS
-  ReqIds = {0,1,2}
-  StreamIds = {1}
-  Msids = {0,1}
+  TxnIds = {1,2,3,4}
+  Sids = {1,2}
   MaxSteps = 60
 VIEW GView
 ACTION_CONSTRAINT Dump
-INVARIANT C09
+INVARIANT C10
 CHECK_DEADLOCK FALSE
